@@ -318,7 +318,7 @@ class Folder:
         d, path, t = key
         rec = d.env.get(d.d) if isinstance(d, Ptr) else self.env.get(d)
         if not isinstance(rec, dict):
-            raise NotConst("member of a value that is not a record")
+            raise NotConst("member %s of a value that is not a record (in %s)" % (path, self.fn.name))
         if isinstance(t, tuple) and t[2]:
             # a pointer into a record (the atom inside a node): work on that part
             pre = t[2] + "."
@@ -326,6 +326,9 @@ class Folder:
             frame = {"__sub__": sub}
             return self.load((Ptr(frame, "__sub__", None), path, ("rec", t[1], "")))
         if path in rec:
+            if rec[path] == 0 and any(k2.startswith(path + ".") for k2 in rec):
+                # a sub-record zero-initialised as a whole (`= {0}`) and then written member by member: its leaves
+                return {k2[len(path) + 1:]: v2 for k2, v2 in rec.items() if k2.startswith(path + ".")}
             return rec[path]
         if t is None:
             # a heap cell (no layout known): a sub-record is what is stored under the path, an unwritten member reads 0
@@ -405,11 +408,11 @@ class Folder:
             for k2 in [k3 for k3 in rec if k3.startswith(path + ".")]:
                 del rec[k2]
             if lay is not None:
-                span = [lay[k3] for k3 in lay if k3.startswith(path + ".")]
-                if span:
-                    lo_ = min(o for o, w in span)
-                    hi_ = max(o + w for o, w in span)
-                    self._carve(rec, lay, lo_, hi_)
+                # the bits of its named leaves; unnamed padding between them keeps what another view stored there (the project
+                # keeps flags of the enclosing type in the padding of the embedded one, and copies of records carry them along)
+                for o, w in sorted({lay[k3] for k3 in lay if k3.startswith(path + ".")}):
+                    if w:
+                        self._carve(rec, lay, o, o + w)
             for k2, v2 in v.items():
                 rec[path + "." + k2] = v2
             return
@@ -594,6 +597,25 @@ class Folder:
                 if x is not None and x.get("k") == "ArraySubscriptExpr":
                     key = self.lv(x)
                     return CPtr(key[1].buf, key[1].off + key[2])
+                if x is not None and x.get("k") == "DeclRefExpr" and x.get("dk") == "gvar":
+                    # the address of a constant record with static storage (`static const struct strpd_s d0 = {0}` to compare with)
+                    ty = self.types[x["t"]] if x.get("t") is not None else {}
+                    if ty.get("rec") is not None and "const" in ty.get("s", ""):
+                        try:
+                            v = self.ev(x)
+                        except NotConst:
+                            v = None
+                        if v == 0 or isinstance(v, dict):
+                            return Ptr({"g": dict(v) if isinstance(v, dict) else {}}, "g", x.get("t"))
+                if x is not None and x.get("k") == "MemberExpr":
+                    # the address of a sub-record (`&d->sd`, `&res.d` handed to a helper): a pointer into the enclosing record
+                    key = self.lv(x)
+                    if isinstance(key, tuple) and len(key) == 3 and key[0] != "deref":
+                        if isinstance(key[0], Ptr):
+                            pre = key[0].prefix if isinstance(key[2], tuple) else ""
+                            return Ptr(key[0].env, key[0].d, None, prefix=(pre + "." + key[1]) if pre else key[1])
+                        self.env.setdefault(key[0], {})
+                        return Ptr(self.env, key[0], None, prefix=key[1])
                 raise NotConst("address of %s" % expr_text_safe(x))
             if op == "*":
                 return self.load(self.lv(n))
